@@ -160,6 +160,24 @@ CHANNELS = [
     ('in-item-batch', 'initem', '<dtml-in q size=9><dtml-var sequence-item>;</dtml-in>', lambda s, A: (None, {'q': Seq('c', ['i0', s, 'i2'])}), ('c', '1')),
     ('in-item-batch-skip', 'initem-skip', '<dtml-in q size=9 skip_unauthorized><dtml-var sequence-item>;</dtml-in>',
      lambda s, A: (None, {'q': Seq('c', ['i0', s, 'i2'])}), ('c', '1')),
+    # the element is fetched through the guard whatever is then done with it: not pushed, pushed as a mapping, read through
+    # the prefix alias
+    ('in-item-nopush', 'initem', '<dtml-in q no_push_item><dtml-var sequence-item>;</dtml-in>', lambda s, A: (None, {'q': Seq('c', ['i0', s, 'i2'])}), ('c', '1')),
+    ('in-item-nopush-skip', 'initem-skip', '<dtml-in q no_push_item skip_unauthorized><dtml-var sequence-item>;</dtml-in>',
+     lambda s, A: (None, {'q': Seq('c', ['i0', s, 'i2'])}), ('c', '1')),
+    ('in-item-nopush-batch', 'initem', '<dtml-in q size=9 no_push_item><dtml-var sequence-item>;</dtml-in>',
+     lambda s, A: (None, {'q': Seq('c', ['i0', s, 'i2'])}), ('c', '1')),
+    ('in-item-nopush-batch-skip', 'initem-skip', '<dtml-in q size=9 no_push_item skip_unauthorized><dtml-var sequence-item>;</dtml-in>',
+     lambda s, A: (None, {'q': Seq('c', ['i0', s, 'i2'])}), ('c', '1')),
+    ('in-item-prefix', 'initem', '<dtml-in q prefix=it><dtml-var it_item>;</dtml-in>', lambda s, A: (None, {'q': Seq('c', ['i0', s, 'i2'])}), ('c', '1')),
+    ('in-item-prefix-nopush-skip', 'initem-skip', '<dtml-in q prefix=it no_push_item skip_unauthorized><dtml-var it_item>;</dtml-in>',
+     lambda s, A: (None, {'q': Seq('c', ['i0', s, 'i2'])}), ('c', '1')),
+    ('in-item-mapping', 'initem', '<dtml-in q mapping><dtml-var v>;</dtml-in>',
+     lambda s, A: (None, {'q': Seq('c', [{'v': 'i0'}, {'v': s}, {'v': 'i2'}])}), ('c', '1')),
+    ('in-item-mapping-skip', 'initem-skip', '<dtml-in q mapping skip_unauthorized><dtml-var v>;</dtml-in>',
+     lambda s, A: (None, {'q': Seq('c', [{'v': 'i0'}, {'v': s}, {'v': 'i2'}])}), ('c', '1')),
+    ('in-item-pair', 'initem', '<dtml-in q><dtml-var sequence-key>=<dtml-var sequence-item>;</dtml-in>',
+     lambda s, A: (None, {'q': Seq('c', [('k0', 'i0'), ('k1', s), ('k2', 'i2')])}), ('c', '1')),
     ('in-item-attr', 'initem-attr', '<dtml-in q><dtml-var pub>:<dtml-if sequence-odd><dtml-var %(A)s></dtml-if>;</dtml-in>',
      lambda s, A: (None, {'q': _items(s, A)}), ('e1', None)),
     ('sequence-var', 'svvar', '<dtml-in q><dtml-var pub>:<dtml-if sequence-odd><dtml-var sequence-var-%(A)s></dtml-if>;</dtml-in>',
@@ -333,7 +351,7 @@ def main(tier):
     # element channels: every subset of refused elements of a 4-element sequence
     import itertools
     for ch in CHANNELS:
-        if ch[1] not in ('initem', 'initem-skip'):
+        if ch[1] not in ('initem', 'initem-skip') or 'mapping' in ch[0] or 'pair' in ch[0]:
             continue
         for r in range(0, 5):
             for dset in itertools.combinations(range(4), r):
